@@ -101,6 +101,12 @@ CHECKS['C10'] = dict(
     note='Trusted: Coq kernel, gen_tables.py (CSS template, CHANGE_INFO), extraction, harness. Modelled not verified: BeautifulSoup prettify/minimal formatter (re-modelled, tied char for char), html5-parser for the page template; links_diff (C04) and dmp (C05 contract) produce the entries. The tokenizer specification is written for this model and validated against html5-parser on every run.',
     design='5/C10')
 
+CHECKS['C14'] = dict(
+    technique='Coq proof over the assembly model (selected views; chrome counts; kept attributes; title-diff markup decodes to both titles) + char-for-char extracted-model correspondence of every returned view (assembly + str(soup)) + shape observer over a malformed-input stream (exploration for the no-crash part)',
+    text='Theorems (partial) over the assembly model, for all pages, diff bodies, title diffs and palettes: the result holds exactly the views include selects (for every string); every view keeps doctype/html/head/body attributes of its base page (old page for deletions); insertions/deletions views are the base head plus exactly the style block and the diff body plus exactly the contrast script; the combined view additionally gets exactly one title-diff meta and one template holding the old head; the title markup reads back (decoder unmark) into the escaped old and new titles for all strings, which by the dmp contract are the two titles; every script/style below a deletion marker ends up inside template.wm-diff-deleted-inert. Tied char for char: the extracted model (assembly + str(soup)) reproduces every returned view from the live parsed pages and diff bodies. The no-crash part and parser behaviour are explored over a malformed-input stream (empty, tag soup, control characters, 300-level nesting, framesets for keys only), labelled exploration.',
+    note='Trusted: Coq kernel, gen_tables.py (style template, contrast script, palette defaults), extraction, harness (soup -> model converter). Modelled not verified: html5-parser, BeautifulSoup tree surgery and str(); diff_elements output is an input of the assembly model. "Never crashes for any two strings" is a fact about C parsers and the interpreter stack: exploration only, labelled so.',
+    design='5/C14')
+
 NOT_YET = {}
 
 
